@@ -166,7 +166,8 @@ CHECKS = {
              "from the (A or AAAA) AND class filter over get_domain_resources(&srv.target, authoritative(false)); the reply is "
              "new_reply(query id), the unicast flag is assigned only under question.unicast_response, None iff no answer; trie "
              "keys carry a per-label length prefix (necessary for label-wise matching); registering a record stores it as "
-             "Authoritative unconditionally.",
+             "Authoritative unconditionally; remove_resource_record removes the given record only (the owner's node only once its map "
+             "is empty).",
         note="Does not decide that trie lookup is label-wise equality / subdomain for all stores (value-level); the match "
              "functions themselves are C18-R4. Trusted: rustc MIR, radix_trie's prefix semantics.",
         ref="DESIGN.md section 4 C13"),
@@ -256,7 +257,7 @@ def main():
         "not_applicable": na,
         "notes": "All checks are static: /repo is type-checked by the driver, never executed. Exit 2 = infrastructure error "
                  "(tree does not compile / driver missing). Functions that are not in tables/functions.tsv (helpers extracted by a "
-                 "later refactoring) are inlined into their callers before analysis. Tested both ways: seeded/ (124 property-breaking "
+                 "later refactoring) are inlined into their callers before analysis. Tested both ways: seeded/ (136 property-breaking "
                  "changes, RESULTS.json) and neutral/ (behaviour-preserving refactorings that must stay silent).",
     }
     json.dump(m, open(os.path.join(VERIF, "MANIFEST.json"), "w"), indent=1)
